@@ -719,7 +719,20 @@ func c09TimeoutClosesPipelinedConn(c *Ctx, rule string) {
 	}) {
 		onCtxErr := false
 		var extra []string
+		// only the conditions decided after the wait for the answer matter (earlier ones admitted the query)
+		var waitPos token.Pos
+		ast.Inspect(f.Body, func(m ast.Node) bool {
+			if call, ok := m.(*ast.CallExpr); ok {
+				if _, name, isM := methodCall(call); isM && name == "get" && len(call.Args) == 1 {
+					waitPos = call.Pos()
+				}
+			}
+			return true
+		})
 		for _, gd := range g.Guards(p) {
+			if gd.Site != nil && gd.Site.Pos() < waitPos {
+				continue
+			}
 			s := core.ExprStr(gd.Cond)
 			switch {
 			case strings.Contains(s, "context.DeadlineExceeded") || strings.Contains(s, "context.Canceled"):
@@ -746,6 +759,110 @@ func c09TimeoutClosesPipelinedConn(c *Ctx, rule string) {
 			}
 			if n == 0 {
 				return " — VIOLATED: no close on the deadline/cancel edge"
+			}
+			return ""
+		}())
+}
+
+// makeCapCoversLen: a three-argument make(T, len, cap) panics when len > cap.  Every such call in the
+// given units has a capacity that provably covers its length: the length is the constant 0, the capacity
+// is the length plus a non-negative constant, max(len, …), or the dominating guards entail cap >= len.
+func makeCapCoversLen(c *Ctx, rule string, fs []*core.Func, what string) int {
+	n := 0
+	seen := map[token.Pos]bool{}
+	for _, f := range fs {
+		info := f.Info()
+		g := f.Graph()
+		for _, p := range g.Find(func(nd ast.Node) bool {
+			r := false
+			ownCalls(nd, func(call *ast.CallExpr, _ bool) {
+				if id, ok := call.Fun.(*ast.Ident); ok && id.Name == "make" && len(call.Args) == 3 {
+					if _, isB := info.Uses[id].(*types.Builtin); isB {
+						r = true
+					}
+				}
+			})
+			return r
+		}) {
+			var call *ast.CallExpr
+			ownCalls(p.Node(), func(cl *ast.CallExpr, _ bool) {
+				if id, ok := cl.Fun.(*ast.Ident); ok && id.Name == "make" && len(cl.Args) == 3 {
+					call = cl
+				}
+			})
+			if call == nil || seen[call.Pos()] {
+				continue
+			}
+			seen[call.Pos()] = true
+			n++
+			l, cp := call.Args[1], call.Args[2]
+			env := &linEnv{info: info}
+			ok := false
+			if tv, has := info.Types[l]; has && tv.Value != nil && tv.Value.String() == "0" {
+				ok = true
+			}
+			target := env.form(cp).add(env.form(l), -1)
+			if target.isConst() && target.k >= 0 {
+				ok = true
+			}
+			if mc, isCall := ast.Unparen(cp).(*ast.CallExpr); isCall {
+				if id, isId := mc.Fun.(*ast.Ident); isId && id.Name == "max" {
+					for _, a := range mc.Args {
+						d := env.form(a).add(env.form(l), -1)
+						if d.isConst() && d.k >= 0 {
+							ok = true
+						}
+					}
+				}
+			}
+			if !ok {
+				var facts []linForm
+				for _, gd := range g.Guards(p) {
+					if be, isB := gd.Cond.(*ast.BinaryExpr); isB && gd.Polarity {
+						if fct, good := env.factOf(be); good {
+							facts = append(facts, fct)
+						}
+					}
+				}
+				ok = entailed(target, facts)
+			}
+			c.R.Checkf(rule, "make-capacity-covers-length@"+shortFn(f.Name)+"/"+nospace(core.ExprStr(call)), c.pos(call.Pos()), ok,
+				"%s: the capacity is provably at least the length (make panics otherwise; %s)", core.ExprStr(call), what)
+		}
+	}
+	return n
+}
+
+// c15RestoreNotifiesEverySet: RestoreHealthSnapshot tells the alive sets about every restored domain — also the
+// ones whose alive flag did not change: the inherited latency samples reach a min-latency set only through
+// NotifyLatencyChange.  (The edge-triggered part is the alive-transition callback, not this call.)
+func c15RestoreNotifiesEverySet(c *Ctx, rule string) {
+	f := c.fn(rule, "component/outbound/dialer", "Dialer.RestoreHealthSnapshot")
+	if f == nil {
+		return
+	}
+	info := f.Info()
+	g := f.Graph()
+	n, bad := 0, ""
+	for _, p := range g.Find(nodeCalls(info, "component/outbound/dialer.AliveDialerSet.NotifyLatencyChange")) {
+		n++
+		for _, gd := range g.Guards(p) {
+			uses := false
+			ast.Inspect(gd.Cond, func(m ast.Node) bool {
+				if se, ok := m.(*ast.SelectorExpr); ok && (se.Sel.Name == "was" || strings.EqualFold(se.Sel.Name, "wasAlive")) {
+					uses = true
+				}
+				return true
+			})
+			if uses && bad == "" {
+				bad = fmt.Sprintf("the notification at %s is conditional on %s", c.pos(p.Node().Pos()), core.ExprStr(gd.Cond))
+			}
+		}
+	}
+	c.R.Checkf(rule, "restore-notifies-the-sets-of-every-restored-domain@RestoreHealthSnapshot", c.pos(f.Pos()), bad == "" && n >= 1,
+		"every restored domain is announced to its alive sets, whether or not its alive flag changed (%d call site(s))%s", n, func() string {
+			if bad != "" {
+				return " — VIOLATED: " + bad + ": a node alive in both generations never hands its inherited latencies to the new group's min-latency set, which keeps its first node for a whole check interval"
 			}
 			return ""
 		}())
